@@ -106,6 +106,37 @@ theorem C10_rotation_history (absIds : Bool) (ms : List Msg) (conns : List Strin
     rw [C10_rotation_needs_prior_key absIds conns m (h m (by simp))]
     exact ih conns (fun m' hm' => h m' (by simp [hm']))
 
+/-! ## the thread id → connection index of the recorder (`SaveNamespaceThreadID` / `GetConnectionRecordByNSThreadID`):
+a map keyed by the whole thread id (the store key is an injective image of it) -/
+
+def threadPut (m : List (String × String)) (t c : String) : List (String × String) := (t, c) :: m.filter (·.1 != t)
+
+def threadGet (m : List (String × String)) (t : String) : Option String := (m.find? (·.1 == t)).map (·.2)
+
+theorem threadGet_put_same (m : List (String × String)) (t c : String) : threadGet (threadPut m t c) t = some c := by
+  simp [threadGet, threadPut]
+
+/-- **a thread id saved for another exchange never changes what this thread id maps to**, however much of their text the
+    two share (seeded change C10-6: the store key was cut to the first 32 bytes of the thread id) -/
+theorem C10_thread_ids_do_not_collide (m : List (String × String)) (t t' c : String) (h : t' ≠ t) :
+    threadGet (threadPut m t' c) t = threadGet m t := by
+  have hne : (t' == t) = false := by simpa using h
+  simp only [threadGet, threadPut, List.find?_cons, hne]
+  congr 1
+  induction m with
+  | nil => rfl
+  | cons x xs ih =>
+    by_cases hx : x.1 = t'
+    · have h1 : (x.1 != t') = false := by simp [hx]
+      have h2 : (x.1 == t) = false := by simp [hx, h]
+      simp only [List.filter_cons, h1, List.find?_cons, h2]
+      exact ih
+    · have h1 : (x.1 != t') = true := by simp [hx]
+      simp only [List.filter_cons, h1, if_true, List.find?_cons]
+      split
+      · rfl
+      · exact ih
+
 /-- non-vacuity: an honest rotation IS applied, a forged one is not -/
 example : step true ["b", "m"] ⟨"b", "b", "b2", "b", "b2"⟩ = (["b2", "m"], true) := by decide
 example : step true ["b", "m"] ⟨"m", "b", "m2", "m", "m2"⟩ = (["b", "m"], false) := by decide
